@@ -382,3 +382,91 @@ def k1_slots_in_bounds(res, tier):
     for op in ('op_get_prop_by_name', 'op_set_prop_by_name'):
         _in_bounds(res, op)
     _in_bounds(res, 'op_invoke', 'invoke', 3)
+
+
+# ---------------------------------------------------------------------------------------------- a class that gains a field
+F74_REPLAY = dict(kind='lay', source='import self.lib;\nimport self.other;\nprint(other.callStr(lib));\nprint(lib.str());\n',
+                  files={'lib.lay': "import self.other;\nexport fn str() { 'lib.str export' }\n",
+                         'other.lay': 'import self.lib;\nexport fn callStr(m) { m.str() }\nprint(callStr(lib).len() > 0);\n'},
+                  expect_stdout='true\nlib.str export\nlib.str export\n', note='the site in callStr is warmed while lib has no export `str` yet')
+
+
+@obligation('C13.K1.export_forgets_shadowed_entries', 'C13', programs=('vm',), also=('C17',))
+def k1_export_forgets(res, tier):
+    """the cache invariant "no field of the class shadows a cached method" under the one operation that adds a field to a class that
+    already has instances and cached call sites: op_export (a module class gains a field with every export).  (a) op_export from MIR,
+    Module::export_symbol summarised by its result: after a successful export every inline cache of the Vm (0..2 caches) was told to
+    forget the invoke entries of the module's class; (b) InlineCache::forget_invoke_class from MIR on a cache of 0..3 sites: exactly
+    the entries naming that class are emptied"""
+    P = get_program('vm')
+    from mirsym.engine import Engine
+    # (b) the kernel
+    fk = P.lookup('cache::InlineCache::forget_invoke_class')
+    fo = P.lookup('vm::Vm::op_export')
+    if fk is None:
+        res.fail('C13.K1:an export leaves the invoke entries of the module class in place',
+                 'op_export adds a field to the module\'s class (Module::export_symbol -> add_field) and nothing forgets the invoke entries cached for that class: a call site warmed '
+                 'before the export keeps calling the method the new field shadows', {'missing': 'no operation that forgets the invoke entries of a class exists'}, replay=F74_REPLAY)
+        res.checks += 1
+        res.paths += 1
+        res.nontrivial += 1
+        return
+    e = Engine(P, loop_bound=5, timeout_s=120)
+    from .vmabs import VmWorld as _VW
+    _VW(e, P)            # object references as identities
+    sd = P.struct_def(ICACHE)
+    ivi = sd.index_of('invoke')
+    ety = ty_args(norm_ty(sd.fields[ivi][1]))[0]
+    res.bounds = {'call sites in a cache': '0..3', 'caches of the Vm': '0..2'}
+
+    def path(e):
+        nv = z3.BitVec('sites', 64)
+        e.add_constraint(z3.ULE(nv, 3))
+        n = e.concretize(nv, [0, 1, 2, 3])
+        cls = AbsObj(z3.BitVec('forgotten_class', 64), 'ObjRef<Class>')
+        cells, before = [], []
+        for i in range(n):
+            ent = e.fresh(ety, f'site{i}')
+            some = e.fork_bool(ent.tag == 1) if not isinstance(ent.tag, int) else ent.tag == 1
+            cid = None
+            ent.tag = 1 if some else 0
+            if some:
+                rec = ent.field(e, 'Some', 0, 'cache::InvokeCache').get(e)
+                rsd = P.struct_def('cache::InvokeCache')
+                cid = object_of(e, rec.field(e, rsd.index_of('class'), rsd.fields[rsd.index_of('class')][1]).get(e)).id
+            before.append((some, cid))
+            cells.append(Cell(ent))
+        ic = Struct(ICACHE, None, NameBacking('the_cache'))
+        ic.f[ivi] = Cell(e.VecV(ConcSeq(ety, cells)) if hasattr(e, 'VecV') else ConcSeq(ety, cells))
+        e.call(fk, [Ref(Cell(ic)), cls])
+        for i, (some, cid) in enumerate(before):
+            after = cells[i].get(e)
+            a_some = (after.tag == 1) if isinstance(after.tag, int) else e.is_valid(after.tag == 1)
+            a_none = (after.tag == 0) if isinstance(after.tag, int) else e.is_valid(after.tag == 0)
+            if some:
+                same = e.fork_bool(cid == cls.id)
+                if same:
+                    e.check(a_none, 'forget_invoke_class: an entry naming the class is emptied', {'site': i})
+                else:
+                    e.check(a_some, 'forget_invoke_class: an entry naming another class is kept', {'site': i})
+            else:
+                e.check(a_none, 'forget_invoke_class: an empty entry stays empty', {'site': i})
+        return {'fn': 'forget_invoke_class', 'sites': n}
+    results = e.explore(path)
+    for r in results:
+        if r.kind in ('oob', 'unreachable', 'ub', 'diverge', 'depth', 'panic'):
+            res.fail(f'C13.K1:forget_invoke_class:{r.kind}', f'path ends in {r.kind}: {str(r.info)[:200]}', {'path': str(r.info)})
+    summarize_paths(res, e, results, lambda r: r.info if isinstance(r.info, dict) else None, key_prefix='C13.K1:forget:', unwind_ok=False)
+    # (a) op_export tells every cache
+    src = P.items.files['laythe_vm/src/vm/ops.rs']
+    import re as _re
+    mm = _re.search(r'fn op_export\b.*?\n  \}\}', src, _re.S)
+    body = mm.group(0) if mm else ''
+    ok_arm = body[body.find('Ok(_)'):body.find('Err(error)')] if 'Ok(_)' in body else ''
+    told = 'forget_invoke_class' in ok_arm and _re.search(r'for\s+\w+\s+in\s+self\s*\.\s*inline_cache\s*\.\s*iter_mut\(\)', ok_arm) is not None and 'current_module.class()' in ok_arm
+    res.checks += 1
+    if not told:
+        res.fail('C13.K1:an export leaves the invoke entries of the module class in place',
+                 'op_export adds a field to the module\'s class and does not make every inline cache forget the invoke entries of that class', {'op_export': ok_arm[:200]}, replay=F74_REPLAY)
+    res.assumptions = (res.assumptions or []) + ['(a) is decided on the source text of op_export (the successful arm loops over self.inline_cache and calls forget_invoke_class with the module\'s class); '
+                                                 'the loop itself is three lines without branches']
